@@ -12,6 +12,7 @@ import (
 	"github.com/ProtonMail/gluon/imap"
 
 	"verifharness/common"
+	"verifharness/imapc"
 	"verifharness/mstore"
 )
 
@@ -131,6 +132,9 @@ func (o *oracle) observe(op mstore.Op, ob mstore.Obs, before, after mstore.Dump,
 			if src == nil || dst == nil {
 				break
 			}
+			if ob.SetLens[0] != ob.SetLens[1] {
+				vs = append(vs, violation{Kind: "copyuid-sets-differ-in-length", Detail: fmt.Sprintf("%s: %d source UIDs, %d destination UIDs (%s)", op, ob.SetLens[0], ob.SetLens[1], ob.Text)})
+			}
 			if len(ob.Pairs) > 0 && dst.UIDV != ob.UIDV {
 				vs = append(vs, violation{Kind: "copyuid-uidvalidity", Detail: fmt.Sprintf("announced %d, mailbox has %d", ob.UIDV, dst.UIDV)})
 			}
@@ -191,6 +195,15 @@ func genOp(rng *common.Rng, d mstore.Dump, lits *mstore.Literals, nlits int, all
 		if len(u) == 0 {
 			u = append(u, m.Rows[len(m.Rows)-1].UID)
 		}
+		// the sequence set is written in any order
+		if len(u) > 1 && rng.Chance(0.5) {
+			for i, j := 0, len(u)-1; i < j; i, j = i+1, j-1 {
+				u[i], u[j] = u[j], u[i]
+			}
+			if len(u) > 2 && rng.Chance(0.5) {
+				u[0], u[1] = u[1], u[0]
+			}
+		}
 		return u
 	}
 	for {
@@ -221,9 +234,12 @@ func genOp(rng *common.Rng, d mstore.Dump, lits *mstore.Literals, nlits int, all
 			}
 			m := withMsgs[rng.Pick(len(withMsgs))]
 			return mstore.Op{Kind: "move", Name: m.Name, UIDs: someUIDs(m), Name2: pick(existing), CreateOK: true, LabelOK: !rng.Chance(0.12), Sess: rng.Pick(2)}
-		case x < 74:
+		case x < 72:
 			return mstore.Op{Kind: "create", Name: pick(pool[:4]), RemoteOK: !rng.Chance(0.08), Sess: rng.Pick(2)}
-		case x < 83:
+		case x < 75:
+			// RENAME INBOX: a new mailbox under a (possibly previously used) name takes over the messages of INBOX
+			return mstore.Op{Kind: "rename", Name: "INBOX", Name2: pick(pool[:4]), RemoteOK: true, Sess: rng.Pick(2)}
+		case x < 84:
 			n := pick(existing)
 			if n == "INBOX" {
 				continue
@@ -367,6 +383,152 @@ func runC04(ctx *common.Ctx) error {
 		}
 		res.Nontrivial("restart-recreate-after-burst")
 		res.Count("scenario:restart-recreate-after-burst")
+	}
+
+	// ---- 1b. scripted histories (minimised earlier findings), compared with the model ----
+	fixed := func(name string, ops []mstore.Op) error {
+		id++
+		cs := &c04Case{ID: id, Burn: 20, Step: 60, Ops: ops}
+		ctx.Current(name+" ["+mstore.OpsString(ops)+"]", cs)
+		lits := newLits(nlits)
+		w, err := mstore.NewWorld(mstore.Config{Burn: 20, BurnStep: 60}, lits)
+		if err != nil {
+			return err
+		}
+		g0 := w.G0
+		or := newOracle()
+		names := mstore.NewNames()
+		var viol *violation
+		clock := int(time.Since(w.Epoch).Seconds())
+		steps, final, err := mstore.Replay(w, ops, func(i int, o mstore.Op, ob mstore.Obs, before, aft mstore.Dump) bool {
+			vs := or.observe(o, ob, before, aft, clock)
+			clock = int(time.Since(w.Epoch).Seconds())
+			res.Evaluations++
+			if ob.Class == "other" {
+				vs = append(vs, violation{Kind: "unexpected-response", Detail: o.String() + ": " + ob.Text})
+			}
+			if len(vs) > 0 {
+				viol = &vs[0]
+				return false
+			}
+			return true
+		})
+		w.Close()
+		if what, ok := mstore.AsProbe(err); ok {
+			viol = &violation{Kind: "mailbox-unreadable", Detail: what}
+		} else if err != nil {
+			return fmt.Errorf("%s: %w", name, err)
+		}
+		if viol != nil {
+			report(cs, *viol, 20, 60)
+		} else {
+			lines = append(lines, mstore.CoqCase(id, nil, lits, g0, names, steps, final))
+		}
+		res.Nontrivial(name)
+		res.Count("scenario:" + name)
+		return nil
+	}
+	ok := func(kind, name string) mstore.Op { return mstore.Op{Kind: kind, Name: name, RemoteOK: true} }
+	app := func(name string, lit int) mstore.Op {
+		return mstore.Op{Kind: "append", Name: name, Lit: lit, Remote: "ok"}
+	}
+	renInbox := func(to string) mstore.Op { return mstore.Op{Kind: "rename", Name: "INBOX", Name2: to, RemoteOK: true} }
+	// RENAME INBOX onto a name that existed before, several rounds: the name must get a greater UIDVALIDITY every time
+	if err := fixed("rename-inbox-onto-used-name", []mstore.Op{ok("create", "a"), app("a", 0), ok("delete", "a"), app("INBOX", 1), renInbox("a"),
+		ok("delete", "a"), app("INBOX", 2), renInbox("a"), ok("delete", "a"), app("INBOX", 3), app("INBOX", 4), renInbox("a"),
+		ok("delete", "a"), ok("create", "a"), app("a", 5), ok("delete", "a"), app("INBOX", 0), renInbox("a/x"), ok("delete", "a/x"), renInbox("a/x")}); err != nil {
+		return err
+	}
+	// sequence sets written in descending / mixed order: COPYUID must still pair source and destination UIDs
+	if err := fixed("copyuid-unordered-set", []mstore.Op{ok("create", "a"), ok("create", "b"), app("a", 0), app("a", 1), app("a", 2), app("a", 3),
+		{Kind: "copy", Name: "a", UIDs: []int{3, 1}, Name2: "b", CreateOK: true, LabelOK: true},
+		{Kind: "copy", Name: "a", UIDs: []int{2, 4, 1}, Name2: "b", CreateOK: true, LabelOK: true},
+		{Kind: "move", Name: "a", UIDs: []int{4, 2, 3}, Name2: "b", CreateOK: true, LabelOK: true},
+		{Kind: "move", Name: "b", UIDs: []int{2, 1}, Name2: "b", CreateOK: true, LabelOK: true}}); err != nil {
+		return err
+	}
+	// MOVE from a snapshot that still shows a message another session has expunged meanwhile (oracle only: the model
+	// has no stale snapshots): both UID sets of COPYUID must describe the messages that were moved
+	{
+		id++
+		cs := &c04Case{ID: id}
+		ctx.Current("move-from-stale-snapshot", cs)
+		lits := newLits(nlits)
+		w, err := mstore.NewWorld(mstore.Config{Burn: 20}, lits)
+		if err != nil {
+			return err
+		}
+		pre := []mstore.Op{ok("create", "a"), ok("create", "b"), app("a", 0), app("a", 1), app("a", 2)}
+		cs.Ops = pre
+		if _, _, err := mstore.Replay(w, pre, func(int, mstore.Op, mstore.Obs, mstore.Dump, mstore.Dump) bool { return true }); err != nil {
+			w.Close()
+			return err
+		}
+		before, err := w.DumpAll()
+		if err != nil {
+			w.Close()
+			return err
+		}
+		a, b := w.Sess[0], w.Sess[1]
+		must := func(c *imapc.Client, line string) error {
+			r, err := c.Cmd(line)
+			if err != nil || r.Status != "OK" {
+				return fmt.Errorf("move-from-stale-snapshot: %s: %v %s", line, err, r.Text)
+			}
+			return nil
+		}
+		var serr error
+		for _, st := range []struct {
+			c *imapc.Client
+			l string
+		}{{a, "SELECT a"}, {b, "SELECT a"}, {b, `UID STORE 2 +FLAGS.SILENT (\Deleted)`}, {b, "UID EXPUNGE 2"}} {
+			if serr = must(st.c, st.l); serr != nil {
+				break
+			}
+		}
+		if serr != nil {
+			w.Close()
+			return serr
+		}
+		r, err := a.Cmd("UID MOVE 1:3 b")
+		if err != nil {
+			w.Close()
+			return err
+		}
+		pairs, _, lens := mstore.CopyPairs(r)
+		after, derr := w.DumpAll()
+		w.Close()
+		res.Evaluations++
+		res.Nontrivial("move-from-stale-snapshot")
+		res.Count("scenario:move-from-stale-snapshot")
+		canon := "copyuid-not-actual [A: SELECT a (3 messages); B: UID EXPUNGE 2 in a; A: UID MOVE 1:3 b]"
+		switch {
+		case derr != nil:
+			res.Fail("mailbox-unreadable [move-from-stale-snapshot]", derr.Error(), cs)
+		case r.Status != "OK":
+			// refusing the whole command would be acceptable; nothing to check then
+		case lens[0] != lens[1]:
+			res.Fail(canon, fmt.Sprintf("COPYUID names %d source UIDs and %d destination UIDs: %s %v", lens[0], lens[1], r.Text, r.Untagged), cs)
+		default:
+			src, dst := before.Get("a"), after.Get("b")
+			for _, p := range pairs {
+				sl, dl := -2, -3
+				for _, row := range src.Rows {
+					if row.UID == p[0] {
+						sl = row.Lit
+					}
+				}
+				for _, row := range dst.Rows {
+					if row.UID == p[1] {
+						dl = row.Lit
+					}
+				}
+				if sl != dl {
+					res.Fail(canon, fmt.Sprintf("pair %v: source literal %d, destination literal %d", p, sl, dl), cs)
+					break
+				}
+			}
+		}
 	}
 
 	// ---- 2. random histories, generator advanced beyond the clock (values deterministic; compared with the model) ----
